@@ -217,7 +217,7 @@ func (e *encoderSimpleBytes) kArrayWMbs(rv reflect.Value, ti *typeInfo, isSlice 
 	e.mapStart(l >> 1)
 
 	var fn *encFnSimpleBytes
-	builtin := ti.tielem.flagEncBuiltin
+	builtin := e.builtinElem(ti.tielem, ti.elemkind)
 	if !builtin {
 		fn = e.kSeqFn(ti.elem)
 	}
@@ -262,14 +262,14 @@ func (e *encoderSimpleBytes) kArrayW(rv reflect.Value, ti *typeInfo, isSlice boo
 	e.arrayStart(l)
 
 	var fn *encFnSimpleBytes
-	if !ti.tielem.flagEncBuiltin {
+	builtin := e.builtinElem(ti.tielem, ti.elemkind)
+	if !builtin {
 		fn = e.kSeqFn(ti.elem)
 	}
 
 	j := 0
 	e.c = containerArrayElem
 	e.e.WriteArrayElem(true)
-	builtin := ti.tielem.flagEncBuiltin
 	for {
 		rvv := rvArrayIndex(rv, j, ti, isSlice)
 		if builtin {
@@ -407,7 +407,7 @@ func (e *encoderSimpleBytes) kStructSimple(f *encFnInfo, rv reflect.Value) {
 		for j, si = range tisfi {
 			e.c = containerArrayElem
 			e.e.WriteArrayElem(j == 0)
-			if si.encBuiltin {
+			if e.builtinField(si) {
 				e.encodeIB(rv2i(si.fieldNoAlloc(rv, true)))
 			} else {
 				e.encodeValue(si.fieldNoAlloc(rv, !chkCirRef), nil)
@@ -429,7 +429,7 @@ func (e *encoderSimpleBytes) kStructSimple(f *encFnInfo, rv reflect.Value) {
 			e.e.WriteMapElemKey(j == 0)
 			e.e.EncodeStringNoEscape4Json(si.encName)
 			e.mapElemValue()
-			if si.encBuiltin {
+			if e.builtinField(si) {
 				e.encodeIB(rv2i(si.fieldNoAlloc(rv, true)))
 			} else {
 				e.encodeValue(si.fieldNoAlloc(rv, !chkCirRef), nil)
@@ -483,7 +483,7 @@ func (e *encoderSimpleBytes) kStruct(f *encFnInfo, rv reflect.Value) {
 					continue
 				}
 			} else {
-				kv.r = si.fieldNoAlloc(rv, si.encBuiltin || !chkCirRef)
+				kv.r = si.fieldNoAlloc(rv, !chkCirRef || e.builtinField(si))
 			}
 			kv.v = si
 			fkvs[newlen] = kv
@@ -517,7 +517,7 @@ func (e *encoderSimpleBytes) kStruct(f *encFnInfo, rv reflect.Value) {
 			for j = 0; j < newlen; j++ {
 				kv = fkvs[j]
 				mf2w[j] = encStructFieldObj{kv.v.encName, kv.r, nil, true,
-					!kv.v.encNameEscape4Json, kv.v.encBuiltin}
+					!kv.v.encNameEscape4Json, e.builtinField(kv.v)}
 			}
 			for _, v := range mf2s {
 				mf2w[j] = encStructFieldObj{v.v, reflect.Value{}, v.i, false, false, false}
@@ -558,7 +558,7 @@ func (e *encoderSimpleBytes) kStruct(f *encFnInfo, rv reflect.Value) {
 					e.kStructFieldKey(keytyp, kv.v.encName)
 				}
 				e.mapElemValue()
-				if kv.v.encBuiltin {
+				if e.builtinField(kv.v) {
 					e.encodeIB(rv2i(baseRVRV(kv.r)))
 				} else {
 					e.encodeValue(kv.r, nil)
@@ -590,7 +590,7 @@ func (e *encoderSimpleBytes) kStruct(f *encFnInfo, rv reflect.Value) {
 					kv.r = reflect.Value{}
 				}
 			} else {
-				kv.r = si.fieldNoAlloc(rv, si.encBuiltin || !chkCirRef)
+				kv.r = si.fieldNoAlloc(rv, !chkCirRef || e.builtinField(si))
 			}
 			kv.v = si
 			fkvs[i] = kv
@@ -608,7 +608,7 @@ func (e *encoderSimpleBytes) kStruct(f *encFnInfo, rv reflect.Value) {
 			kv = fkvs[j]
 			if !kv.r.IsValid() {
 				e.e.EncodeNil()
-			} else if kv.v.encBuiltin {
+			} else if e.builtinField(kv.v) {
 				e.encodeIB(rv2i(baseRVRV(kv.r)))
 			} else {
 				e.encodeValue(kv.r, nil)
@@ -674,8 +674,8 @@ func (e *encoderSimpleBytes) kMap(f *encFnInfo, rv reflect.Value) {
 	var it mapIter
 	mapRange(&it, rv, rvk, rvv, true)
 
-	kbuiltin := f.ti.tikey.flagEncBuiltin
-	vbuiltin := f.ti.tielem.flagEncBuiltin
+	kbuiltin := e.builtinElem(f.ti.tikey, f.ti.keykind)
+	vbuiltin := e.builtinElem(f.ti.tielem, f.ti.elemkind)
 	for j := 0; it.Next(); j++ {
 		rv = it.Key()
 		e.c = containerMapKey
@@ -4032,7 +4032,7 @@ func (e *encoderSimpleIO) kArrayWMbs(rv reflect.Value, ti *typeInfo, isSlice boo
 	e.mapStart(l >> 1)
 
 	var fn *encFnSimpleIO
-	builtin := ti.tielem.flagEncBuiltin
+	builtin := e.builtinElem(ti.tielem, ti.elemkind)
 	if !builtin {
 		fn = e.kSeqFn(ti.elem)
 	}
@@ -4077,14 +4077,14 @@ func (e *encoderSimpleIO) kArrayW(rv reflect.Value, ti *typeInfo, isSlice bool) 
 	e.arrayStart(l)
 
 	var fn *encFnSimpleIO
-	if !ti.tielem.flagEncBuiltin {
+	builtin := e.builtinElem(ti.tielem, ti.elemkind)
+	if !builtin {
 		fn = e.kSeqFn(ti.elem)
 	}
 
 	j := 0
 	e.c = containerArrayElem
 	e.e.WriteArrayElem(true)
-	builtin := ti.tielem.flagEncBuiltin
 	for {
 		rvv := rvArrayIndex(rv, j, ti, isSlice)
 		if builtin {
@@ -4222,7 +4222,7 @@ func (e *encoderSimpleIO) kStructSimple(f *encFnInfo, rv reflect.Value) {
 		for j, si = range tisfi {
 			e.c = containerArrayElem
 			e.e.WriteArrayElem(j == 0)
-			if si.encBuiltin {
+			if e.builtinField(si) {
 				e.encodeIB(rv2i(si.fieldNoAlloc(rv, true)))
 			} else {
 				e.encodeValue(si.fieldNoAlloc(rv, !chkCirRef), nil)
@@ -4244,7 +4244,7 @@ func (e *encoderSimpleIO) kStructSimple(f *encFnInfo, rv reflect.Value) {
 			e.e.WriteMapElemKey(j == 0)
 			e.e.EncodeStringNoEscape4Json(si.encName)
 			e.mapElemValue()
-			if si.encBuiltin {
+			if e.builtinField(si) {
 				e.encodeIB(rv2i(si.fieldNoAlloc(rv, true)))
 			} else {
 				e.encodeValue(si.fieldNoAlloc(rv, !chkCirRef), nil)
@@ -4298,7 +4298,7 @@ func (e *encoderSimpleIO) kStruct(f *encFnInfo, rv reflect.Value) {
 					continue
 				}
 			} else {
-				kv.r = si.fieldNoAlloc(rv, si.encBuiltin || !chkCirRef)
+				kv.r = si.fieldNoAlloc(rv, !chkCirRef || e.builtinField(si))
 			}
 			kv.v = si
 			fkvs[newlen] = kv
@@ -4332,7 +4332,7 @@ func (e *encoderSimpleIO) kStruct(f *encFnInfo, rv reflect.Value) {
 			for j = 0; j < newlen; j++ {
 				kv = fkvs[j]
 				mf2w[j] = encStructFieldObj{kv.v.encName, kv.r, nil, true,
-					!kv.v.encNameEscape4Json, kv.v.encBuiltin}
+					!kv.v.encNameEscape4Json, e.builtinField(kv.v)}
 			}
 			for _, v := range mf2s {
 				mf2w[j] = encStructFieldObj{v.v, reflect.Value{}, v.i, false, false, false}
@@ -4373,7 +4373,7 @@ func (e *encoderSimpleIO) kStruct(f *encFnInfo, rv reflect.Value) {
 					e.kStructFieldKey(keytyp, kv.v.encName)
 				}
 				e.mapElemValue()
-				if kv.v.encBuiltin {
+				if e.builtinField(kv.v) {
 					e.encodeIB(rv2i(baseRVRV(kv.r)))
 				} else {
 					e.encodeValue(kv.r, nil)
@@ -4405,7 +4405,7 @@ func (e *encoderSimpleIO) kStruct(f *encFnInfo, rv reflect.Value) {
 					kv.r = reflect.Value{}
 				}
 			} else {
-				kv.r = si.fieldNoAlloc(rv, si.encBuiltin || !chkCirRef)
+				kv.r = si.fieldNoAlloc(rv, !chkCirRef || e.builtinField(si))
 			}
 			kv.v = si
 			fkvs[i] = kv
@@ -4423,7 +4423,7 @@ func (e *encoderSimpleIO) kStruct(f *encFnInfo, rv reflect.Value) {
 			kv = fkvs[j]
 			if !kv.r.IsValid() {
 				e.e.EncodeNil()
-			} else if kv.v.encBuiltin {
+			} else if e.builtinField(kv.v) {
 				e.encodeIB(rv2i(baseRVRV(kv.r)))
 			} else {
 				e.encodeValue(kv.r, nil)
@@ -4489,8 +4489,8 @@ func (e *encoderSimpleIO) kMap(f *encFnInfo, rv reflect.Value) {
 	var it mapIter
 	mapRange(&it, rv, rvk, rvv, true)
 
-	kbuiltin := f.ti.tikey.flagEncBuiltin
-	vbuiltin := f.ti.tielem.flagEncBuiltin
+	kbuiltin := e.builtinElem(f.ti.tikey, f.ti.keykind)
+	vbuiltin := e.builtinElem(f.ti.tielem, f.ti.elemkind)
 	for j := 0; it.Next(); j++ {
 		rv = it.Key()
 		e.c = containerMapKey
